@@ -1,6 +1,5 @@
 import MaltModel.Util.Sexp
 import MaltModel.Rt.Cache
-import MaltModel.Props.C10
 /- Driver handlers for the C10 trace validation (glue only; no theorem depends on this file).
 
 `cache-validate <progs> <events>`: is the globally ordered event log of the real cache an execution
@@ -82,6 +81,7 @@ structure V where
   fail : List Nat
   s : State O F
   bind : List (Nat × F)          -- factory serial of the implementation ↦ model factory
+  unsafeGc : List Nat := []      -- code ids whose `gc` step was not `GcSafe` (the schedule is outside `SchedSafe`)
 
 def bindOk (v : V) (ser : Nat) (f : F) : Option V :=
   match v.bind.lookup ser with
@@ -103,7 +103,9 @@ def stepEv (v : V) (e : Ev) : Except String V :=
   match e with
   | .gc c =>
     if live v.s c then .error s!"gc of code {c.id} while a live function uses it"
-    else if (v.s.outer.any (fun e => e.1 = c)) then .ok { v with s := step (T v.fail) v.s (.gc c) }
+    else if (v.s.outer.any (fun e => e.1 = c)) then
+      .ok { v with s := step (T v.fail) v.s (.gc c),
+                   unsafeGc := if decide (GcSafe v.s c) then v.unsafeGc else v.unsafeGc ++ [c.id] }
     else .error s!"gc of code {c.id}: the model has no entry keyed by this object"
   | .begin t => thrStep t fun th _ =>
       match th.pc with
@@ -222,6 +224,7 @@ def handlers : List (String × (List Sexp → String)) := [
         pure (toString (Sexp.list ([.atom "accept", Sexp.ofNat n,
           .list [.atom "unfinished", Sexp.ofNat unfinished],
           .list [.atom "lock-free", Sexp.ofBool v.s.lock.isNone],
+          .list (.atom "unsafe-gc" :: v.unsafeGc.map Sexp.ofNat),
           .list (.atom "outcomes" :: v.s.threads.map fun th => .list (th.results.map (outcomeSexp fail))),
           .list [.atom "counts", countsSexp v.s]] ++ classSexp progs)))),
   ("cache-class", fun a => run do
